@@ -112,6 +112,9 @@ package risc
 //@   ensures forall r RegisterType :: old(comp.has(ctx.transactionRAT, r)) ==> comp.has(ctx.committedRAT, r) && comp.newest(ctx.committedRAT, r) == old(comp.newest(ctx.transactionRAT, r).value)
 //@   ensures forall r RegisterType :: !old(comp.has(ctx.transactionRAT, r)) ==> comp.has(ctx.committedRAT, r) == old(comp.has(ctx.committedRAT, r)) && comp.newest(ctx.committedRAT, r) == old(comp.newest(ctx.committedRAT, r))
 //@   ensures forall r RegisterType :: !comp.has(ctx.transactionRAT, r)
+//@   -- the committed write is the youngest by tag (program order): holds when tags were written in order
+//@   ensures forall r RegisterType, i int :: old(comp.validSlot(ctx.transactionRAT, r, i)) ==> old(comp.newest(ctx.transactionRAT, r).sequenceID) >= old(comp.slot(ctx.transactionRAT, r, i).sequenceID)
+//@   finding F11-out-of-order-tags: !monoTags(ctx)
 //@   assigns ctx.transactionRAT, ctx.committedRAT.idx[*], ctx.committedRAT.values[*], ctx.committedRAT.wrapped[*], all []int32
 //@   loop 0: invariant comp.wfRAT(ctx.committedRAT) && ctx.transactionRAT == old(ctx.transactionRAT) && ctx.committedRAT == old(ctx.committedRAT)
 //@   loop 0: invariant forall r RegisterType :: visited(r) ==> old(comp.has(ctx.transactionRAT, r)) && comp.has(ctx.committedRAT, r) && comp.newest(ctx.committedRAT, r) == old(comp.newest(ctx.transactionRAT, r).value)
@@ -1392,4 +1395,3 @@ package risc
 //@ func (*xori).MemoryWrite
 //@   ensures len(result) == 0
 //@   assigns nothing
-
